@@ -236,6 +236,16 @@ func genC08(t *rapid.T) (*DCase, map[string]bool) {
 	for k, f := range g.funs {
 		items = append(items, ast.Func(f.name, f.params, bodies[k]))
 	}
+	// ev / od: mutual recursion; each activation has its own parameters (tag is
+	// extended on the way down and must come back unchanged in the caller)
+	mut := func(name, other, base string) *ast.Node {
+		return ast.Func(name, []string{"mn", "tag"}, ast.Block(
+			ast.If(ast.Bin("<=", ast.Id("mn"), ast.Num("0")), ast.Block(ast.Return(ast.Bin("+", ast.Id("tag"), ast.Str(base))))),
+			// (no local here: a nested activation would reach it through dynamic scope)
+			ast.Return(ast.Bin("+", ast.Bin("+", ast.Call(ast.Id(other), ast.Bin("-", ast.Id("mn"), ast.Num("1")), ast.Bin("+", ast.Id("tag"), ast.Str(name[:1]))), ast.Str("<")), ast.Id("tag"))),
+		))
+	}
+	items = append(items, mut("ev", "od", ":even"), mut("od", "ev", ":odd"))
 	// the caller
 	set := func(n string, v *ast.Node) *ast.Node { return ast.ExprS(ast.Set(ast.Id(n), v)) }
 	stmts := []*ast.Node{set("g1", ast.Num("1")), set("g2", ast.Str("s")), set("arr", ast.Arr(ast.Num("1"), ast.Num("2"), ast.Num("3"))), set("sc", ast.Num("7"))}
@@ -283,6 +293,9 @@ func genC08(t *rapid.T) (*DCase, map[string]bool) {
 			stmts = append(stmts, set(r, ast.Match(call, ast.Case(ast.Str("zero"), ast.Num("0")), ast.Case(ast.Bin("+", ast.Id("mv"), g.callExpr(0, argSrc)), ast.Id("mv")))))
 			stmts = append(stmts, ast.Print(ast.Str("M"), ast.Is(ast.Id("mv"), "unknown")))
 			g.labels["call-in-match"] = true
+		case 6: // mutual recursion over two functions, with a local in each activation
+			stmts = append(stmts, set(r, ast.Call(ast.Id("ev"), ast.Num(fmt.Sprint(g.n(0, 7, "mutdepth"))), ast.Str("t"))))
+			g.labels["mutual-recursion"] = true
 		case 5: // short-circuit right operand (must not be called when not needed)
 			stmts = append(stmts, set(r, ast.Bin(rapid.SampledFrom([]string{"&&", "||"}).Draw(t, "sc"), rapid.SampledFrom([]*ast.Node{ast.True(), ast.False()}).Draw(t, "scl").Clone(), call)))
 			g.labels["call-short-circuit"] = true
